@@ -34,6 +34,9 @@ def run_items(ctx, items, label):
         if e.get("ev") == "act":
             rec["reaction"] = e["row"]["reaction"]
             rec["regime"] = regime(e)
+        if e.get("ev") == "rel":
+            # "<task>#<row>:<relation>": the regime of the row's own evaluation (a relation between garbage values fails too)
+            rec["regime"] = regime(byid.get(i.rsplit(":", 1)[0], {"row": {}, "cond": {}}))
         if e.get("ev") == "decay":
             rec["frac"] = e.get("frac")
             rec["rests"] = e.get("rests")
